@@ -1,5 +1,5 @@
 #!/usr/bin/env python3
-"""tools/mk_tasks.py <round dir, e.g. /tmp/wt9> <emphasis file> : one scratch git worktree of /repo per claimed property,
+"""tools/mk_tasks.py <round dir, e.g. /tmp/wt9> <emphasis file> [property ids...] : one scratch git worktree of /repo per claimed property,
 each with a TASK.md for a sub-agent that is to seed one property-breaking change.
 
 The sub-agent gets the text of the property only (title, statement, quantifier), the rules, a list of what earlier
@@ -41,7 +41,7 @@ def main():
     root, emphasis_file = sys.argv[1], sys.argv[2]
     emphasis = open(emphasis_file).read().strip()
     manifest = json.load(open(os.path.join(VERIF, "MANIFEST.json")))
-    claimed = [c["property_id"] for c in manifest["checks"]]
+    claimed = sys.argv[3:] or [c["property_id"] for c in manifest["checks"]]     # optional: only these properties
     props = {}
     for line in open(os.path.join(VERIF, "properties.jsonl")):
         p = json.loads(line)
